@@ -39,6 +39,14 @@ __CPROVER_assigns(*state, *codep, g_u)
 __CPROVER_ensures(g_u_state == *state && g_u_calls == __CPROVER_old(g_u_calls) + 1)
 __CPROVER_ensures(g_u_count == __CPROVER_old(g_u_count) + (*state == U_START ? 1 : 0));
 
+/* for callers that are not concerned with the value of the count (the decoder's string callback): no ghost run */
+size_t _cbor_unicode_codepoint_count__plain(cbor_data source, size_t source_length, struct _cbor_unicode_status *status)
+__CPROVER_requires(source_length <= VERIF_MAXOBJ && __CPROVER_r_ok(source, source_length))
+__CPROVER_requires(__CPROVER_w_ok(status, sizeof(*status)))
+__CPROVER_assigns(*status)
+__CPROVER_ensures(__CPROVER_return_value <= source_length &&
+                  (status->status == _CBOR_UNICODE_OK || status->status == _CBOR_UNICODE_BADCP));
+
 size_t _cbor_unicode_codepoint_count(cbor_data source, size_t source_length, struct _cbor_unicode_status *status)
 __CPROVER_requires(source_length <= VERIF_MAXOBJ && __CPROVER_r_ok(source, source_length))
 __CPROVER_requires(__CPROVER_w_ok(status, sizeof(*status)))
